@@ -93,6 +93,12 @@ func runCase(t *testing.T, c *Case, sch scheduler, maxMoves int, drain bool, emi
 			ins[i] = make(chan int, c.ICaps[i])
 		}
 		rec := &calls{gated: c.Stage.Kind == "fork" && c.Stage.Gate, gates: map[int]chan struct{}{}, start: start}
+		preCancelled := strings.HasPrefix(c.Gen, "pre-cancelled")
+		if preCancelled {
+			// the context is already cancelled when the stage is created
+			cancel()
+			c.Moves = append(c.Moves, Move{M: "cancel", O: "done"})
+		}
 		outs := build(ctx, c.Stage, ins, rec)
 		// a SECOND INSTANCE of the same stage is alive during the whole case, with inputs of its own that nobody feeds
 		// and a context of its own: two instances share nothing, whatever is pooled or cached inside the package
@@ -107,7 +113,7 @@ func runCase(t *testing.T, c *Case, sch scheduler, maxMoves int, drain bool, emi
 			for range ins {
 				decoyIns = append(decoyIns, make(chan int))
 			}
-			build(dctx, &ds, decoyIns, &calls{gates: map[int]chan struct{}{}, start: start})
+			build(dctx, &ds, decoyIns, &calls{decoy: true, gates: map[int]chan struct{}{}, start: start})
 		}
 		c.OCaps = nil
 		for _, o := range outs {
@@ -118,7 +124,7 @@ func runCase(t *testing.T, c *Case, sch scheduler, maxMoves int, drain bool, emi
 			nobs = 1
 		}
 		st := &runState{stage: c.Stage, inputs: c.Inputs, pos: make([]int, len(ins)), closedIn: make([]bool, len(ins)),
-			closedOut: make([]bool, nobs), nouts: nobs, timed: c.Stage.Kind == "emit" || c.Stage.Kind == "throttle"}
+			closedOut: make([]bool, nobs), nouts: nobs, timed: c.Stage.Kind == "emit" || c.Stage.Kind == "throttle", cancelled: preCancelled}
 		if c.Stage.Kind == "seq" {
 			c.Inputs = nil
 		}
